@@ -1738,3 +1738,39 @@ func (f *FuncCFG) valuesUnder(e ast.Expr, pt Point, assign map[string]bool, dept
 	}
 	out[exprKey(e)] = true
 }
+
+// LoopBound describes what a loop iterates over, independent of its source form:
+// "count:<key>" for `for range n`, `for i := range n`, `for i := 0; i < n; i++`,
+// "chan:<key>" for `for v := range ch` and `for v, ok := <-ch; ok; v, ok = <-ch`,
+// "range:<key>" for a range over a slice/map, "" otherwise.
+func (f *FuncCFG) LoopBound(l loopInfo) string {
+	switch st := l.Stmt.(type) {
+	case *ast.RangeStmt:
+		t := f.Info.TypeOf(st.X)
+		if t != nil {
+			switch u := t.Underlying().(type) {
+			case *types.Basic:
+				if u.Info()&types.IsInteger != 0 {
+					return "count:" + rawKey(st.X)
+				}
+			case *types.Chan:
+				return "chan:" + rawKey(st.X)
+			}
+		}
+		return "range:" + rawKey(st.X)
+	case *ast.ForStmt:
+		if st.Cond == nil {
+			return ""
+		}
+		if rel, ok := relOf(st.Cond); ok && rel.Op == "<" {
+			return "count:" + rel.R
+		}
+		// for v, ok := <-ch; ok; v, ok = <-ch
+		if as, ok := st.Init.(*ast.AssignStmt); ok && len(as.Rhs) == 1 {
+			if u, ok := ast.Unparen(as.Rhs[0]).(*ast.UnaryExpr); ok && u.Op == token.ARROW {
+				return "chan:" + rawKey(u.X)
+			}
+		}
+	}
+	return ""
+}
